@@ -364,4 +364,12 @@ def r7_cli(F, R):
     roles.check_cli_surface(F, R, "cli::Opts")
     R.floor(2)
 
-RULES = [("R1", r1, None), ("R2", r2, None), ("R3", r3, None), ("R4", r4, None), ("R5", r5, None), ("R6", r6_clone, None), ("R7", r7_cli, None)]
+def r8_entry(F, R):
+    """`run` / `run_and_exit` are the filtering entry points with a filter accepting every scenario (= C01.R11): without `--name` / `--tags` nothing is filtered out."""
+    if "cucumber" not in F.crates:
+        return
+    from . import c01
+    c01.r11(F, R)
+
+
+RULES = [("R1", r1, None), ("R2", r2, None), ("R3", r3, None), ("R4", r4, None), ("R5", r5, None), ("R6", r6_clone, None), ("R7", r7_cli, None), ("R8", r8_entry, ["default", "all"])]
